@@ -76,6 +76,13 @@ def load_code(self):
     key = get_keys(a, b)
     padsize = (b + 15) & ~0xF
     intsize = padsize / 4
+    # An encrypted code object holds its nested code objects still encrypted, so
+    # every nesting level deciphers its whole payload again.  Bound the total.
+    budget = getattr(self, "decrypt_budget", None)
+    if budget is not None:
+        budget[0] -= max(padsize, 0)
+        if budget[0] < 0:
+            raise ValueError("encrypted code objects are nested too deeply")
     data = self.bufstr[self.bufpos : self.bufpos + padsize]
     # print("%d: %d (%d=%d)" % (self.bufpos, b, padsize, len(data)))
     data = list(struct.unpack("<%dL" % intsize, data))
@@ -83,6 +90,7 @@ def load_code(self):
     self.bufpos += padsize
     obj = xmarshal._FastUnmarshaller(struct.pack("<%dL" % intsize, *data))
     obj.dispatch = self.dispatch  # nested code objects are encrypted too
+    obj.decrypt_budget = budget
     code = obj.load_code()
     co_code = patch(code.co_code)
     if PYTHON3:
@@ -294,6 +302,8 @@ def loads(s):
     # dispatch table is shared by every xdis.marsh.loads() call.
     um.dispatch = dict(um.dispatch)
     um.dispatch[xmarshal.TYPE_CODE] = load_code
+    # total number of bytes load_code() may decipher, see there
+    um.decrypt_budget = [16 * len(s) + 4096]
     return um.load()
 
 
